@@ -32,10 +32,11 @@ const (
 	opWrite
 	opWrapU
 	opWrapW
+	opFlush
 	c11NumOps
 )
 
-var c11Names = [...]string{"PutS(k1,n1)", "PutS(k2,n2)", "DelS(k1)", "DelAllS(keep)", "PutC(rm,c1)", "DelC(rm)", "ReadS(k1)", "ReadC(rm)", "WriteHeader(200)", "WriteHeader(302)", "Write(x)", "WrapU", "WrapW"}
+var c11Names = [...]string{"PutS(k1,n1)", "PutS(k2,n2)", "DelS(k1)", "DelAllS(keep)", "PutC(rm,c1)", "DelC(rm)", "ReadS(k1)", "ReadC(rm)", "WriteHeader(200)", "WriteHeader(302)", "Write(x)", "WrapU", "WrapW", "FlushIfFlusher"}
 
 type c11Entry struct {
 	kind string // S | C | H | B
@@ -71,6 +72,10 @@ type c11Writer struct {
 
 func (w *c11Writer) Header() http.Header { return w.h }
 func (w *c11Writer) WriteHeader(int)     { w.tl.e = append(w.tl.e, c11Entry{kind: "H"}) }
+
+// Flush releases the header (and any buffered body) to the client.
+func (w *c11Writer) Flush() { w.tl.e = append(w.tl.e, c11Entry{kind: "H"}) }
+
 func (w *c11Writer) Write(b []byte) (int, error) {
 	w.tl.e = append(w.tl.e, c11Entry{kind: "B"})
 	return len(b), nil
@@ -170,6 +175,12 @@ func c11Run(first int, maxLen int, dl time.Time) engine.UnitResult {
 			case opWrite:
 				w.Write([]byte("x"))
 				wrote = true
+			case opFlush:
+				// what a streaming handler does; a writer that offers Flush must treat it as a write
+				if f, ok := w.(http.Flusher); ok {
+					f.Flush()
+					wrote = true
+				}
 			case opWrapU:
 				w = c11WrapU{w}
 			case opWrapW:
@@ -331,11 +342,11 @@ func (nopLogger) Error(string) {}
 func init() {
 	engine.Register(&engine.Property{
 		ID: "C11", Level: "exploration",
-		Rule: "all handler programs up to the tier's length over 13 operations (put/del/delete-all on the session, put/del on the cookie store, reads, WriteHeader 200/302, Write, two kinds of response-writer wrapper) executed inside the real LoadClientStateMiddleware with recording stores; compared with reference list semantics; non-trivial classes = distinct (#session events, #cookie events, wrote?) outcomes",
+		Rule: "all handler programs up to the tier's length over 14 operations (put/del/delete-all on the session, put/del on the cookie store, reads, WriteHeader 200/302, Write, two kinds of response-writer wrapper, Flush through the http.Flusher type assertion when the writer offers it) executed inside the real LoadClientStateMiddleware with recording stores; compared with reference list semantics; non-trivial classes = distinct (#session events, #cookie events, wrote?) outcomes",
 		Units: func(tier string) []engine.Unit {
-			maxLen := 7
+			maxLen := 6
 			if tier == "thorough" {
-				maxLen = 8
+				maxLen = 7
 			}
 			var us []engine.Unit
 			for f := -1; f < int(c11NumOps); f++ {
